@@ -1,8 +1,7 @@
 from contracts.index import entry_extend
 
-_BP = "quimb/tensor/belief_propagation"
 entry_extend(
-    "C14", modules=["contracts.c14_ext"], E1=[], LEMMAS=False,
+    "C14", modules=["contracts.c14_ext"], E1=["quimb/tensor/belief_propagation/bp_common.py::BeliefPropagationCommon.run"], LEMMAS=False,
     PROVIDERS=["contracts.c14_ext.provider_counting", "contracts.c14_ext.provider_algebra"],
     TRUSTED=[
         "python semantics used by the ast path analysis (provider_counting): iterating a dict / dict.items() / a list "
@@ -25,10 +24,19 @@ entry_extend(
         "compute_index_marginal / compute_all_index_marginals_from_messages: symbolic in the data, enumerated for bond "
         "dimension 1..3 and 1..3 tensors per index; D2BP.compute_marginal: every tensor of 1..4 legs, every output "
         "position, every subset of bonded legs (the function is uniform in the leg position)",
-        "HV1BP.contract, BeliefPropagationCommon.run, compute_tensor_marginal, D2BP gauging are NOT covered",
+        "BeliefPropagationCommon.run (E1): domain max_iterations >= 1 (max_iterations == 0 raises UnboundLocalError on "
+        "'max_mdiff' with the default tol: reported defect, outside the contract), diis=False, progbar=False, iterate "
+        "returning a plain number (the dict-returning flavours' result.get('max_mdiff') branch is not covered); iterate, "
+        "_maybe_contract, callback and RollingDiffMean are uninterpreted (k-th reported change MD(k), rolling mean AMD(k))",
+        "HV1BP.contract, compute_tensor_marginal, the per-flavour iterate/update functions and D2BP gauging are NOT covered",
     ],
     BOUNDED_FOR={"compute_index_marginal": ["marginal"], "compute_marginal": ["marginal"]},
-    EXPLANATION="E4 (ast path analysis of the real contract methods of D1BP, D2BP, L1BP, L2BP, HD1BP and of "
+    EXPLANATION="E1 (BeliefPropagationCommon.run, all of tol_abs / tol_rolling_diff / info / callback given or not): "
+                "iterate is called exactly `it` <= max_iterations times, each time with tol=tol; self.n advances by it; the "
+                "loop stops only when converged or exhausted; converged holds iff the LAST reported change is below "
+                "tol_abs (default tol) or the rolling mean is below a positive tol_rolling_diff (default tol); every "
+                "reported change is recorded and fed to the rolling mean; the warning is issued iff tol != 0 and not "
+                "converged; info is filled with exactly these values.  E4 (ast path analysis of the real contract methods of D1BP, D2BP, L1BP, L2BP, HD1BP and of "
                 "contract_hyper_messages): on every control-flow path each tensor / site / factor contributes exactly one "
                 "local value with counting number +1 (sites without neighbours included), each bond exactly one with -1 "
                 "(read from the two opposite messages; only output indices may be skipped), nothing else touches the list, "
